@@ -11,9 +11,20 @@ from common import BINARY as _BIN
 BINARY = os.environ.get("LSP4SPL_BIN", _BIN)
 
 
-def frame(obj_or_bytes):
+def frame(obj_or_bytes, style=0):
+    """style 0: the usual header; 1: Content-Type before Content-Length; 2: Content-Type after it;
+    4: no blank after the colon (all legal, all accepted by the unchanged server)"""
     body = obj_or_bytes if isinstance(obj_or_bytes, bytes) else json.dumps(obj_or_bytes, ensure_ascii=False, separators=(",", ":")).encode("utf-8")
-    return b"Content-Length: " + str(len(body)).encode() + b"\r\n\r\n" + body
+    n = str(len(body)).encode()
+    if style == 1:
+        head = b"Content-Type: application/vscode-jsonrpc; charset=utf-8\r\nContent-Length: " + n
+    elif style == 2:
+        head = b"Content-Length: " + n + b"\r\nContent-Type: application/vscode-jsonrpc; charset=utf-8"
+    elif style == 4:
+        head = b"Content-Length:" + n
+    else:
+        head = b"Content-Length: " + n
+    return head + b"\r\n\r\n" + body
 
 
 def request(id_, method, params=None):
